@@ -14,7 +14,8 @@ LEVEL = "fault_enumeration"
 BATCH = 16
 RULE = ("Enumerated: ALL 256 exception codes x {read, write, write-multi} x {udp-rtu, tcp} x k dropped transmissions "
         "before the exception frame (k in the tier's range) x keep-alive (thorough: both; quick: alternating) x "
-        "(timeout, retries); the exception frame answers transmission k+1 with a delay drawn from {prompt, mid, just "
+        "(timeout, retries), the earlier transmissions being lost or answered by a lone first fragment whose missing "
+        "tail is exactly as long as the exception frame; the exception frame answers transmission k+1 with a delay drawn from {prompt, mid, just "
         "inside the timeout}.  Plus one run per transport/keep-alive that requests all 256 codes on one object and "
         "compares the full code->text mapping (pairwise distinct known texts), and end-to-end runs through "
         "ET.read_runtime_data / read_setting where an optional block answers each exception code.  Non-trivial: all; "
@@ -50,9 +51,16 @@ def _space(tier):
                     for code in range(256):
                         if tier == "thorough":
                             for ka in (False, True):
-                                out.append(("exc", tr, ci, k, code, ka))
+                                out.append(("exc", tr, ci, k, code, ka, "drop"))
                         else:
-                            out.append(("exc", tr, ci, k, code, bool((code + k + ci) & 1)))
+                            out.append(("exc", tr, ci, k, code, bool((code + k + ci) & 1), "drop"))
+        # earlier timeouts of the same request caused by a LONE first fragment whose missing tail has exactly the
+        # length of the exception frame (reads only)
+        for tr in ("udp", "tcp"):
+            for k in (1, 2):
+                for code in (list(range(256)) if tier == "thorough" else list(range(0, 16)) + [0x80, 0xFF]):
+                    for ka in (False, True):
+                        out.append(("exc", tr, 0, k, code, ka, "lonefrag_fit"))
         for tr in ("udp", "tcp"):
             for ka in (False, True):
                 out.append(("texts", tr, ka))
@@ -80,11 +88,11 @@ def make_case(tier, seed, index):
     rnd = C.rng_for(seed, ID, index)
     c = _space(tier)[index]
     if c[0] == "exc":
-        _, tr, ci, k, code, ka = c
+        _, tr, ci, k, code, ka, prior = c
         cands = [s for s in SETTINGS if s[1] >= k]
         tau, r = cands[index % len(cands)]
         return {"kind": "exc", "transport": tr, "cmd": CMDS[ci], "k": k, "code": code, "keep_alive": ka,
-                "timeout": tau, "retries": r, "delay": rnd.choice(["prompt", "mid", "edge"])}
+                "timeout": tau, "retries": r, "delay": rnd.choice(["prompt", "mid", "edge"]), "prior": prior}
     if c[0] == "texts":
         return {"kind": "texts", "transport": c[1], "keep_alive": c[2]}
     return {"kind": "e2e", "what": c[1], "code": c[2], "transport": c[3]}
@@ -114,7 +122,12 @@ def run_case(case):
 def run_exc(case):
     tr, tau, r, k, code = case["transport"], case["timeout"], case["retries"], case["k"], case["code"]
     d = {"prompt": DEFAULT_LATENCY, "mid": tau / 2, "edge": tau - EPS}[case["delay"]]
-    faults = [{"k": "drop"}] * k + [{"k": "exc", "code": code, "d": d}]
+    if case.get("prior") == "lonefrag_fit":
+        n = case["cmd"]["count"]
+        pre = [{"k": "lonefrag", "s": 2 * n, "d1": DEFAULT_LATENCY}] * k   # answer is 7+2n (RTU) / 9+2n (TCP) bytes long
+    else:
+        pre = [{"k": "drop"}] * k
+    faults = pre + [{"k": "exc", "code": code, "d": d}]
     world = World(max_steps=20_000)
     world.net.begin_script(faults, {"k": "ok"})
     dev = SimInverter(mode="stamp")
@@ -141,6 +154,7 @@ def run_exc(case):
         else:
             check_text(violations, code, rec["msg"], tr)
         dls = [x for x in net.deliveries if x["status"] == "delivered" and x["kind"] == "data"]
+        dls = [x for x in dls if x["tx"] == k]
         if not dls:
             violations.append(viol(f"C08:no-delivery:{tr}", "exception frame was not delivered"))
         elif rec["t1"] != dls[-1]["t_run"]:
@@ -152,8 +166,9 @@ def run_exc(case):
         if net.n_tx != state["ntx_at_return"]:
             violations.append(viol(f"C08:retransmit-after:{tr}:{op}",
                                    f"{net.n_tx - state['ntx_at_return']} transmissions after the rejection"))
-    sig = (tr, op, code, k, case["delay"], case["keep_alive"])
-    return C.package(world, case, violations, sig, True, {"exc_runs": 1})
+    sig = (tr, op, code, k, case["delay"], case["keep_alive"], case.get("prior"))
+    return C.package(world, case, violations, sig, True, {"exc_runs": 1,
+                                                         "prior_lonefrag": 1 if case.get("prior") == "lonefrag_fit" else 0})
 
 
 def run_texts(case):
